@@ -138,6 +138,19 @@ def _mini_model(pp, ctx, depth_ts, depth_it, max_iter):
             c.prove("after convergence: the convergence flag of the model is set", self.convergence_status is True)
             c.prove("after convergence: the clock stays at the accepted time", self.time_manager.time == t_acc)
             self.ghost["accepted"].append((t_acc, es.get_variable_values(time_step_index=0)))
+            self._history(c, "after convergence")
+
+        def _history(self, c, when):
+            """the whole time-step history (every stored slot, not only the first two) is the sequence of accepted solutions"""
+            H = [self.ghost["init"]] + [a[1] for a in self.ghost["accepted"]]
+            es = self.equation_system
+            for k in range(min(depth_ts, len(H))):
+                try:
+                    got = es.get_variable_values(time_step_index=k)
+                except (KeyError, ValueError, IndexError) as e:
+                    c.prove(f"{when}: time-step slot {k} is stored once {k + 1} solutions (incl. the initial one) exist", False)
+                    continue
+                c.prove(f"{when}: time-step slot {k} holds the accepted solution {k} steps back", _eq(got, H[-1 - k]))
 
         def after_nonlinear_failure(self):
             c = self._ctx
@@ -151,6 +164,7 @@ def _mini_model(pp, ctx, depth_ts, depth_it, max_iter):
             last_t = self.ghost["accepted"][-1][0] if self.ghost["accepted"] else 0
             c.prove("after failure: the clock is back at the last accepted time", abs(float(self.time_manager.time) - float(last_t)) <= 1e-12)
             c.trace.append(("failure clock", float(self.time_manager.time), float(last_t)))
+            self._history(c, "after failure")
 
     m = Mini()
     init = SymArray.fresh("u0", NDOF, "real")
@@ -207,10 +221,26 @@ def _sweep(rep, pp):
     quick = rep.tier == "quick"
     rng = rep.rng
 
-    def make(pattern, depth):
+    def make(pattern, depth, depth_it=None):
+        depth_it = depth if depth_it is None else depth_it
+
         class M(SquareDomainOrthogonalFractures, SinglePhaseFlow):
             time_step_indices = property(lambda self: np.arange(depth))
-            iterate_indices = property(lambda self: np.arange(depth))
+            iterate_indices = property(lambda self: np.arange(depth_it))
+
+            def _history(self, when):
+                """every stored time-step slot holds the accepted solution that many steps back (initial values before that)"""
+                g = self._ghost
+                es = self.equation_system
+                H = g["init_slots"][::-1] + [a[1] for a in g["accepted"]]
+                for k in range(depth):
+                    try:
+                        got = es.get_variable_values(time_step_index=k)
+                    except Exception as e:  # noqa
+                        g["bad"].append((f"{when}: the whole time-step history is the sequence of accepted solutions", f"slot {k} not stored ({type(e).__name__})"))
+                        continue
+                    if not np.array_equal(got, H[-1 - k]):
+                        g["bad"].append((f"{when}: the whole time-step history is the sequence of accepted solutions", f"slot {k} after solve {g['solves']}"))
 
             def bc_values_pressure(self, bg):
                 vals = np.zeros(bg.num_cells)
@@ -228,6 +258,8 @@ def _sweep(rep, pp):
                 return super().check_convergence(nonlinear_increment, residual, reference_residual, nl_params)
 
             def before_nonlinear_loop(self):
+                if self._ghost["solves"] == 0:
+                    self._ghost["init_slots"] = [self.equation_system.get_variable_values(time_step_index=k) for k in range(depth)]
                 self._ghost["solves"] += 1
                 self._ghost["ts0_start"] = self.equation_system.get_variable_values(time_step_index=0)
                 super().before_nonlinear_loop()
@@ -245,6 +277,7 @@ def _sweep(rep, pp):
                 if depth > 1 and not np.array_equal(es.get_variable_values(time_step_index=1), old):
                     g["bad"].append(("after a converged step the second time-step slot holds the previously accepted solution", f"solve {g['solves']}"))
                 g["accepted"].append((t, es.get_variable_values(time_step_index=0)))
+                self._history("after a converged step")
 
             def after_nonlinear_failure(self):
                 es = self.equation_system
@@ -259,6 +292,7 @@ def _sweep(rep, pp):
                 last = g["accepted"][-1][0] if g["accepted"] else 0.0
                 if abs(float(self.time_manager.time) - last) > 1e-12:
                     g["bad"].append(("after a failed step the clock is back at the last accepted time", f"time {self.time_manager.time} vs {last}"))
+                self._history("after a failed step")
 
         fluid = pp.FluidComponent(compressibility=1e-6, density=1000.0, viscosity=1e-3)
         tm = pp.TimeManager(schedule=[0, 1.0], dt_init=0.5, dt_min_max=(0.01, 1.0), iter_max=8, iter_optimal_range=(2, 5), recomp_factor=0.5, recomp_max=3, constant_dt=False)
@@ -269,7 +303,7 @@ def _sweep(rep, pp):
     with rep.sweep("failure injection on a real flow model",
                    rule="compressible SinglePhaseFlow on the unit square with one fracture (Cartesian), schedule [0,1], dt_init 1/2, adaptive stepping; injection patterns = "
                         "subsets of {solve 1..4} x {diverge at iteration 1, stall on all iterations, diverge at iteration 2}, within the recomputation budget; storage "
-                        "depth 1 and 2; nontrivial = at least one injected failure; distinct by (pattern, depth)", bound="<= 2 injected failures among the first 4 solves",
+                        "depths (time steps / iterates) 1/1, 2/2 and 3/1; nontrivial = at least one injected failure; distinct by (pattern, depth)", bound="<= 2 injected failures among the first 4 solves",
                    exhaustive=True) as sw:
         acts = ["diverge1", "stall", "diverge2"]
         pats = [{}]
@@ -282,7 +316,7 @@ def _sweep(rep, pp):
         if quick:
             pats = pats[:7] + rng.sample(pats[7:13], 3) + rng.sample(pats[13:], 4)
         for pat in pats:
-            for depth in (1, 2):
+            for depth, depth_it in ((1, 1), (2, 2), (3, 1)):
                 pattern = {}
                 for s, a in pat.items():
                     if a == "diverge1":
@@ -293,12 +327,12 @@ def _sweep(rep, pp):
                     else:
                         for it in range(0, 12):
                             pattern[(s, it)] = "stall"
-                inp = {"pattern": {str(k): v for k, v in pat.items()}, "depth": depth}
-                sw.case((tuple(sorted(pat.items())), depth), nontrivial=bool(pat), sample=inp)
+                inp = {"pattern": {str(k): v for k, v in pat.items()}, "depth": depth, "iterate_depth": depth_it}
+                sw.case((tuple(sorted(pat.items())), depth, depth_it), nontrivial=bool(pat), sample=inp)
                 try:
                     with warnings.catch_warnings():
                         warnings.simplefilter("ignore")
-                        m = make(pattern, depth)
+                        m = make(pattern, depth, depth_it)
                         pp.run_time_dependent_model(m, {"max_iterations": 8, "nl_convergence_tol": 1e-8, "progressbars": False})
                 except ValueError as e:
                     if "recomputing attempts" in str(e) or "minimum admissible" in str(e):
@@ -343,8 +377,8 @@ def run(rep):
     refuted = []
     mods = [run_models, solution_strategy, nonlinear_solvers, equation_system, ad_utils]
     with shims.shadow_builtins(mods), shims.numpy_shims():
-        for depth_ts, depth_it in ((1, 1), (2, 2)):
-            for max_iter in (((1,) if depth_ts == 1 else (1, 2)) if rep.tier == "quick" else (1, 2, 3)):
+        for depth_ts, depth_it in ((1, 1), (2, 2), (3, 1), (1, 2)):
+            for max_iter in (((1,) if (depth_ts, depth_it) != (2, 2) else (1, 2)) if rep.tier == "quick" else (1, 2, 3)):
                 rf, _ = run_case(rep, f"driver(depth={depth_ts}/{depth_it}, max_iterations={max_iter})", case_driver(pp, depth_ts, depth_it, max_iter), tier="Ps",
                                  allowed_exceptions=(ValueError,), max_paths=20000)
                 refuted += rf
